@@ -306,9 +306,9 @@ pub fn run(run: &Run) {
             Case { capacity, presentations }
         })
     };
-    run.prop_f("history", run.tier.pick(600, 15_000), sh, case, run_case);
+    run.prop_f("history", run.tier.pick(12000, 120000), sh, case, run_case);
     let b = (prop_oneof![Just(0u16), Just(1), Just(255), Just(256), 2u16..600], prop_oneof![Just(0u8), Just(1), Just(16), Just(17), 0u8..24], prop_oneof![Just(0u32), Just(1), Just(86_400), Just(86_401), any::<u32>()]).prop_map(|(name_len, endpoints, ttl)| BoundCase { name_len, endpoints, ttl });
-    run.prop("bounds", run.tier.pick(600, 6000), sh, b, run_bounds);
+    run.prop("bounds", run.tier.pick(12000, 48000), sh, b, run_bounds);
 }
 
 pub fn replay(run: &Run, sub: &str, case: &Value) -> Option<bool> {
